@@ -61,7 +61,7 @@ struct Hello { int ver; int ems; /* 0 = offered, -1 = not offered */ std::vector
 
 struct World {
     Ctx &c; Server A, B; sslKeys_t *ckeys = nullptr; int auth = AUTH_RSA;
-    std::vector<Client> cl; std::vector<Cred> creds; std::vector<Live> live; std::vector<std::unique_ptr<Pair>> flood_open; std::vector<int> live_flood_cred;
+    std::vector<Client> cl; std::vector<Cred> creds; std::vector<Live> live; std::vector<std::unique_ptr<Pair>> flood_open;
     int next_uid = 1; int registrations = 0; bool flooded = false, disturbed = false, any_failure = false, any_fatal = false, keys_changed = false, expired_jump = false;
     // what made the history "interesting" before the latest resume attempt
     bool pre_expiry = false, pre_fatal = false, pre_flood = false, pre_keyrm = false;
@@ -571,6 +571,7 @@ static void prop(Tape &t, Ctx &c) {
         } else if (op < 86) {                             // ---- AdvanceClock
             static const int64_t D[] = { 1000, 59000, 358000, 363000, 3600000, 0 /*LIFE-5s*/, 1 /*LIFE+5s*/, 90000000, 200000000 };
             size_t i = t.below(9); int64_t dt = D[i]; if (i == 5) dt = LIFE - 5000; if (i == 6) dt = LIFE + 5000;
+            if (now_ms() + dt > 1000000 + 20LL * 86400000) { c.count("cmd:advance-clock-capped"); continue; }   // psDiffMsecs is an int32 of milliseconds: stay below its 24.8-day range
             vfh_clock_advance_ms(dt); w.note(fmt("AdvanceClock(%llds)", (long long) (dt / 1000)));
             for (auto &cr : w.creds) if (expired(cr, 1000)) w.pre_expiry = true;
             c.count("cmd:advance-clock");
@@ -591,7 +592,7 @@ static void prop(Tape &t, Ctx &c) {
                 Attempt a = run_hs(w, w.A, fs, h, nullptr); w.registrations++;
                 if (a.outcome != O_FULL) { c.count("flood-handshake-failed"); w.any_failure = true; continue; }
                 int x = harvest(w, fs, -1, a, 0, h);
-                if (keep && w.flood_open.size() < 40) { if (x >= 0) w.live_flood_cred.push_back(x); w.flood_open.push_back(std::move(a.p)); }
+                (void) x; if (keep && w.flood_open.size() < 40) w.flood_open.push_back(std::move(a.p));
             }
             w.flooded = true; if (n >= 32) w.pre_flood = true;
             w.note(fmt("Flood(%zu,%s)", n, keep ? "kept-open" : "closed")); c.count(n >= 32 ? "cmd:flood>=32" : "cmd:flood<32");
